@@ -304,6 +304,24 @@ def units(w):
     for kind in ("named function", "anonymous function", "list1", "map1", "object1", "string", "int"):
         U.append(Unit("nodes.py::NodeDef.evaluate", s_def(kind), p_def(kind), name=f"nodes.py::NodeDef.evaluate[frame, {kind}]", allowed=()))
 
+    # a function definition evaluates nothing: its default expressions are kept as they are and evaluated at each call, so that two
+    # calls never share a container made by a default (values produced by separate evaluations are independent)
+    def s_lambda(it):
+        dflt, body = S.node("default", V.list_of(it, [], "made_by_default")), S.node("body", V.NULL)
+        node = Obj(nodes["NodeLambda"], {"args": PList(["x", "acc"]), "defs": PList([None, dflt]), "body": body, "pos": V.pos(it)})
+        node.fresh = False
+        return [node, real_env(w, it, {})], {}, {"dflt": dflt, "body": body}
+
+    def p_lambda(it, c, o):
+        it.check("post:returns-a-function-value", o.kind == "return" and cls_name(o.value) == "FuncLambda")
+        it.check("post:no-default-expression-and-no-body-is-evaluated-at-definition-time", not [e for e in it.trace if e[0] == "eval"], detail=str(it.trace[:3]))
+        if o.kind == "return" and cls_name(o.value) == "FuncLambda":
+            dv = o.value.fields.get("defValues")
+            it.check("post:the-function-holds-the-default-expressions-themselves(evaluated at each call)",
+                     isinstance(dv, PList) and dv.items is not None and len(dv.items) == 2 and dv.items[0] is None and dv.items[1] is c["dflt"])
+            it.check("post:and-the-body-itself", o.value.fields.get("body") is c["body"])
+    U.append(Unit("nodes.py::NodeLambda.evaluate", s_lambda, p_lambda, name="nodes.py::NodeLambda.evaluate[defaults are not evaluated at definition time]", allowed=()))
+
     # ValueList.addItems rebinds instead of extending (a later mutation of the result must not reach the source list)
     def s_additems(it):
         dst = V.list_of(it, [], "dst")
@@ -384,6 +402,16 @@ def bounded(tier, seed):
         ("def a = [1, 2]; def b = [5]; append_all(b, a); append(b, 0); a", "[1, 2]"),
         ("def a = [[1], [2]]; def b = flatten(a); append(b, 3); a", "[[1], [2]]"),
         ("def a = [1, 1, 2]; def b = unique(a); append(b, 3); a", "[1, 1, 2]"),
+        # containers made by default expressions, literals in function bodies and comprehensions are made anew by every evaluation
+        ("def collect(x, acc = []) do append(acc, x); acc end; [collect(1), collect(2)]", "[[1], [2]]"),
+        ("def reg(k, m = <<<>>>) do put(m, k, 1); m end; [reg('a'), reg('b')]", "[<<<'a' => 1>>>, <<<'b' => 1>>>]"),
+        ("def tag(x, s = <<>>) do append(s, x); s end; [tag(1), tag(2)]", "[<<1>>, <<2>>]"),
+        ("def mk(o = <*n = 0*>) do o->n = o->n + 1; o end; [mk()->n, mk()->n]", "[1, 1]"),
+        ("def f = fn(x, acc = [[]]) do append(acc[0], x); acc end; [f(1), f(2)]", "[[[1]], [[2]]]"),
+        ("def fresh() []; def a = fresh(); append(a, 1); fresh()", "[]"),
+        ("def fresh() do def l = [0]; l end; def a = fresh(); append(a, 1); fresh()", "[0]"),
+        ("def rows = [[] for i in range(2)]; append(rows[0], 1); rows", "[[1], []]"),
+        ("def a = [1]; def f(x = a) do append(x, 2); x end; f(); a", "[1, 2]"),
     ]
     ev = 0
     for src, exp in cases:
